@@ -14,7 +14,9 @@ Arguments Err {A} _.
 Definition res_bind {A B} (r : res A) (f : A -> res B) : res B :=
   match r with Ok a => f a | Err e => Err e end.
 Notation "'do' x <- r ; k" := (res_bind r (fun x => k))
-  (at level 200, x pattern, r at level 100, k at level 200, right associativity).
+  (at level 200, x name, r at level 100, k at level 200, right associativity).
+Notation "'do' ' p <- r ; k" := (res_bind r (fun x => match x with p => k end))
+  (at level 200, p pattern, r at level 100, k at level 200, right associativity).
 
 Lemma Forall_app_iff {A} (P : A -> Prop) l1 l2 :
   Forall P (l1 ++ l2) <-> Forall P l1 /\ Forall P l2.
